@@ -79,7 +79,8 @@ def unit_long_rows(a):
 
 # ------------------------------------------------------------------ unicode rows
 ROW_CHARS = st.one_of(
-    st.sampled_from(["|", "|", "\\", "\\", "n", " ", " ", "\t", "\xa0", "　", "\x0b", "\x0c", "\r", "x", "é",
+    st.sampled_from(["\ufdd0", "\ufdd0", "\ufdd1", "\u202a", "\u202b", "\u202c", "\u202d", "\u202e", "\u2066", "\u2069", "\u200e", "\u200f", "\u061c", "\ue000", "\x00", "\ufffe",
+                     "|", "|", "\\", "\\", "n", " ", " ", "\t", "\xa0", "　", "\x0b", "\x0c", "\r", "x", "é",
                      "\U0001F600", "\x85", " ", "\x1c", " ", "​", "﻿"]),
     st.characters(blacklist_categories=["Cs"], blacklist_characters="\n"),
 )
@@ -94,7 +95,7 @@ def unit_unirows(a):
 
 # ------------------------------------------------------------------ round trip
 CELL_CHARS = st.one_of(
-    st.sampled_from(["|", "\\", "n", "\n", " ", "\t", "x", "\\n", "\\|", "\\\\", "é", "\U0001F600", "\xa0", "<", ">", "\r"]),
+    st.sampled_from(["\ufdd0", "\ufdd1", "\u202a", "\u202e", "\u202c", "\u200f", "\ue000", "|", "\\", "n", "\n", " ", "\t", "x", "\\n", "\\|", "\\\\", "é", "\U0001F600", "\xa0", "<", ">", "\r"]),
     st.characters(blacklist_categories=["Cs"]),
 )
 
